@@ -10,7 +10,7 @@ run 3 C08 C09 C19 C07
 run 4 C07 C08
 run 5 C03 C04
 run 6 C06 C09 C03
-run 7 C10 C11 C12 C04
+run7() { for p in C10 C11 C12 C04; do out=$(VERIF_DEV=1 tools/seedtest.sh $p seeded/harmless/7/patch_ported_933ad03.diff 2>&1); echo "refactor 7 $p: $(echo "$out" | grep -E "^(OK|VIOLATION|PATCH)" | head -2 | cut -c1-200 | tr "\n" " ")"; done; }; run7
 run 8 C10 C13 C12 C14 C18
 run 9 C17 C06 C15
 run 10 C16
